@@ -1,6 +1,6 @@
 """E9 limbcov (K5): whole-value operations must touch every limb.
 
-A multi-limb value ([T; N] field of a backend type, N >= 3) is one number.  A function that reads (or writes) limbs
+A multi-limb value ([T; N] field of a backend type, N >= 2) is one number.  A function that reads (or writes) limbs
 through statically known indices -- constants and `for i in a..b` loop variables with constant bounds -- and reaches
 all limbs but k of them (k small) treats the value as something else than the number it is: an `iszero` that skips
 the top limb calls 2^192 zero, a canonicality borrow chain that skips a limb accepts or rejects the wrong range, a
@@ -33,6 +33,23 @@ def load_table():
     if not os.path.exists(p):
         return {"partial_ok": []}
     return json.load(open(p))
+
+
+class _Allowed:
+    """reviewed exceptions keyed by (function name or pattern, array, kind)"""
+
+    def __init__(self, tab):
+        self.ents = [(re.compile(e["fn"]) if any(c in e["fn"] for c in "\\(|[*+?") else None, e) for e in tab.get("partial_ok", [])]
+
+    def get(self, key):
+        fn, arr, kind = key
+        for rx, e in self.ents:
+            if e["array"] == arr and e["kind"] == kind and (e["fn"] == fn or (rx is not None and rx.fullmatch(fn))):
+                return e
+        return None
+
+    def __contains__(self, key):
+        return self.get(key) is not None
 
 
 def slack(n):
@@ -361,9 +378,7 @@ def pathstr(fn, key):
 def run_limbcov(facts, run, prop, type_filter=None):
     """type_filter: optional predicate on the function record restricting the scope (per-property views)."""
     tab = load_table()
-    allowed = {}
-    for e in tab.get("partial_ok", []):
-        allowed[(e["fn"], e["array"], e["kind"])] = e
+    allowed = _Allowed(tab)
     cfg = facts.config
     n_full = n_partial_ok = n_fns = 0
     used = set()
@@ -380,7 +395,7 @@ def run_limbcov(facts, run, prop, type_filter=None):
             n_fns += 1
         for key, a in sorted(arrs.items(), key=str):
             n = a["n"]
-            if a["opaque"] or n < 3:
+            if a["opaque"] or n < 2:
                 continue
             for kind, S in (("read", a["R"]), ("write", a["W"])):
                 if not S:
@@ -433,7 +448,7 @@ class FnDeps(FnCov):
         self.indexed = set()   # keys accessed limb by limb in this function
         self._under = {}
 
-    MIN_N = 3
+    MIN_N = 2
     LEAVES = False     # also report non-array leaf fields as one-cell 'arrays' (must-write analysis)
 
     def arr_n(self, td):
@@ -501,7 +516,7 @@ class FnDeps(FnCov):
             if base is not None:
                 tid = self.key_ty(base)
                 n = self.arr_len(tid)
-                if n is not None and n >= 3:
+                if n is not None and n >= 2:
                     k = self.canon(base)
                     self.N[k] = n
                     self.indexed.add(k)
@@ -605,7 +620,7 @@ def near_full(mask, n):
 
 def run_limbdeps(facts, run, prop, type_filter=None):
     tab = load_table()
-    allowed = {(e["fn"], e["array"], e["kind"]): e for e in tab.get("partial_ok", [])}
+    allowed = _Allowed(tab)
     cfg = facts.config
     n_ret = n_merge = 0
     for fn in facts.fns.values():
@@ -687,7 +702,7 @@ def run_limbseq(facts, run, prop, type_filter=None):
     same array A) in the same argument position form a sequence of limb indices.  A sequence that uses some index twice
     while skipping an index in between is the copy-and-paste slip `A[1], A[1], A[3]`: reported unless reviewed."""
     tab = load_table()
-    allowed = {(e["fn"], e["array"], e["kind"]) for e in tab.get("partial_ok", [])}
+    allowed = _Allowed(tab)
     cfg = facts.config
     n_seq = 0
     for fn in facts.fns.values():
@@ -717,7 +732,7 @@ def run_limbseq(facts, run, prop, type_filter=None):
                 if base is None:
                     continue
                 n = fd.arr_len(fd.key_ty(base))
-                if n is None or n < 3:
+                if n is None or n < 2:
                     continue
                 ie = sp[1]
                 if ie[0] == "c":
@@ -968,4 +983,105 @@ def run_fullwrite(facts, run, prop):
                             config=cfg, site="%s:%s" % (fn["file"], fn["line"]), prop=prop))
     run.stats = getattr(run, "stats", {})
     run.stats.update(k5d_decoders=n)
+    return n
+
+
+# ---------------------------------------------------------------------------
+# K6: a 64-bit quantity is not consumed only through its low 32 bits
+# ---------------------------------------------------------------------------
+
+def run_widecov(facts, run, prop, type_filter=None):
+    """A by-value u64/i64 parameter (or a named local loaded from a field of self) whose *only* uses in the function are
+    truncating casts to <= 32 bits loses its upper half -- the byte counter of a hash compression function rebuilt
+    from `ctr as i32` alone.  Uses are followed through unnamed copy temporaries; any full-width use (shift, arithmetic,
+    comparison, call argument, store) makes the value 'covered'."""
+    import collections
+    cfg = facts.config
+    n = 0
+    for fn in facts.fns.values():
+        if not fn["file"].startswith("src/") or fn["kind"] == "Closure":
+            continue
+        if type_filter and not type_filter(fn):
+            continue
+        b = Body(fn)
+
+        def bits(l):
+            td = facts.ty(b.local_ty(l))
+            return td.get("bits") if td.get("k") in ("uint", "int") else None
+        cand = set()
+        for l in range(1, len(fn["locals"])):
+            if bits(l) != 64 or not fn["locals"][l][1]:
+                continue
+            if l <= fn["argc"]:
+                cand.add(l)
+            else:
+                d = b.single_def(l)
+                if d and d[2] == "A" and d[3][2][0] == "use" and d[3][2][1][0] in ("cp", "mv") and len(d[3][2][1][1]) > 1 \
+                        and d[3][2][1][1][0] == 1:
+                    cand.add(l)
+        if not cand:
+            continue
+        uses = collections.defaultdict(lambda: [0, 0, None])
+
+        def note(o, trunc=False, line=None):
+            if o[0] in ("cp", "mv") and len(o[1]) == 1 and bits(o[1][0]) == 64:
+                u = uses[o[1][0]]
+                u[0 if trunc else 1] += 1
+                if trunc:
+                    u[2] = line
+        copy_of = {}
+        for bi in b.reach:
+            for s_ in b.blocks[bi]["s"]:
+                if s_[0] != "A":
+                    continue
+                rv = s_[2]
+                if rv[0] == "cast" and rv[1] == "IntToInt":
+                    td = facts.ty(rv[3])
+                    note(rv[2], trunc=(td.get("k") in ("uint", "int") and td.get("bits", 64) <= 32), line=s_[3])
+                elif rv[0] == "use":
+                    if len(s_[1]) == 1 and not fn["locals"][s_[1][0]][1] and rv[1][0] in ("cp", "mv") and len(rv[1][1]) == 1 \
+                            and b.single_def(s_[1][0]):
+                        copy_of[s_[1][0]] = rv[1][1][0]
+                    else:
+                        note(rv[1])
+                elif rv[0] == "bin":
+                    note(rv[2])
+                    note(rv[3])
+                elif rv[0] in ("un", "cast"):
+                    note(rv[2])
+                elif rv[0] == "agg":
+                    for o in rv[2]:
+                        note(o)
+                elif rv[0] == "repeat":
+                    note(rv[1])
+            t = b.blocks[bi]["t"]
+            if t[0] == "call":
+                for o in t[2]:
+                    note(o)
+            elif t[0] == "switch":
+                note(t[1])
+        for t_, src in copy_of.items():
+            root = src
+            while root in copy_of:
+                root = copy_of[root]
+            if bits(root) == 64:
+                uses[root][0] += uses[t_][0]
+                uses[root][1] += uses[t_][1]
+                if uses[t_][2]:
+                    uses[root][2] = uses[t_][2]
+        for l in sorted(cand):
+            tr, ot, line = uses[l]
+            if tr + ot == 0:
+                continue
+            n += 1
+            ok = not (tr >= 1 and ot == 0)
+            run.oblige(ok=ok)
+            if not ok:
+                nm = fn["locals"][l][1]
+                run.add(Finding("K6", "%s|%s" % (norm_name(fn["name"]), nm),
+                                "limbcov K6: in %s (%s:%s) the 64-bit value `%s` is only ever used truncated to 32 bits or fewer: its upper half is lost "
+                                "(e.g. a byte counter rebuilt from `%s as i32` alone)" % (fn["name"], fn["file"], line, nm, nm),
+                                config=cfg, site="%s:%s" % (fn["file"], line), prop=prop))
+    run.stats = getattr(run, "stats", {})
+    run.stats.update(k6_wide_values=n)
     return n
